@@ -186,4 +186,14 @@ theorem rotation3_eq [GenPrelude.HasLibm K] (axis : V3 K) (θ : K) :
 theorem rotation2_eq [GenPrelude.HasLibm K] (θ : K) :
     model2d.NewMatrix2Rotation θ = gm2 (M2.rotation (GenPrelude.HasLibm.cos θ) (GenPrelude.HasLibm.sin θ)) := rfl
 
+/-- `Matrix3Transform.ApplyBounds`: the three nested loops over `[]float64{min, max}` (unrolled by the
+translator, with their `i == 0 && j == 0 && k == 0` first-corner test) are the running min/max over the eight
+corner images of the model. -/
+theorem matrix_bounds (m : M3 K) (lo hi : V3 K) :
+    model3d.Matrix3Transform_ApplyBounds ⟨gm3 m⟩ (g3 lo) (g3 hi) =
+      (g3 ((Xf.matrix m).applyBounds lo hi).1, g3 ((Xf.matrix m).applyBounds lo hi).2) := by
+  simp only [model3d.Matrix3Transform_ApplyBounds, Xf.applyBounds, Xf.matrixBounds, Xf.cornerImages, List.foldl,
+    show ∀ x y z : K, model3d.XYZ x y z = g3 ⟨x, y, z⟩ from fun _ _ _ => rfl, mulColumn3]
+  simp [min3, max3]
+
 end M3d.KernelsTie.Transform
